@@ -52,6 +52,10 @@ def run(P, rep, tier):
     rep.attempt(r2_taint, P, rep, ctx)
     rep.attempt(r3_listings, P, rep, ctx)
     rep.attempt(r4_predicates, P, rep, ctx)
+    # the bookkeeping never disturbs user data: destroying the metadata of a *copy* made without metadata must not unlink the originals' objects (a later user operation on the original would fail)
+    from . import c06
+
+    rep.attempt(c06.r_unlink_threading, P, rep, ctx, "C08.R5")
     rep.floor("C08.R1", 25, "protocol members")
     rep.floor("C08.R2", 12, "tainted flows")
     rep.floor("C08.R3", 8)
